@@ -12,7 +12,7 @@ Z3_STATS = {"checks": 0, "seconds": 0.0, "sat": 0, "unsat": 0, "unknown": 0}
 
 ENGINE_PATCHES = [
     "crosshair.libimpl.relib._Match.groupdict rebuilt on group() (0.0.110 returns index pairs and drops unmatched groups)",
-    "str.__mod__ registration: the two '%r' % dict.keys() logger.debug format strings of curtsies.window are returned unformatted (logging is not the subject)",
+    "str.__mod__ registration: the two '%r' % dict.keys() logger.debug format strings of curtsies.window and the ValueError message of get_cursor_position ('Bytes preceding cursor position ... %r') are returned unformatted (log / message text is not the subject; formatting would realise the symbolic values)",
     "copyreg.pickle(FrozenAttributes / FmtStr / Chunk) so CrossHair's own deepcopy bookkeeping can copy them (plain copy.copy of a FmtStr raises RecursionError / 'Cannot change value.')",
     "SymbolicInt.__mul__/__rmul__ with ' ' returns a SegStr of spaces (only in SegStr harnesses)",
     "z3.Solver.check wrapped to count queries and solver seconds",
@@ -69,7 +69,7 @@ def _fix_logging_format():
 
     def pf(self, other):
         with NoTracing():
-            if type(self) is str and self.startswith("lines in "):
+            if type(self) is str and self.startswith(("lines in ", "Bytes preceding cursor position")):
                 return self
         other = deep_realize(other)
         self = deep_realize(self)
